@@ -19,18 +19,16 @@ let cmd_am (x : sx) : sx =
 
 let cmd_poly (x : sx) : sx =
   match x with
-  | L [fixed; per; n; am; nan; pieces; values] ->
-      let f = if bool_of_sx fixed then c15_poly_fixed else c15_poly in
-      sx_of_out (f (per_of_sx per) (nat_of_sx n) (list_of_sx nat_of_sx am) (nan_of_sx nan)
+  | L [per; n; am; nan; pieces; values] ->
+      sx_of_out (c15_poly (per_of_sx per) (nat_of_sx n) (list_of_sx nat_of_sx am) (nan_of_sx nan)
                    (list_of_sx nat_of_sx pieces) (list_of_sx z_of_sx values))
-  | _ -> failwith "poly: (fixed per n am nan pieces values)"
+  | _ -> failwith "poly: (per n am nan pieces values)"
 
 let cmd_gdf (x : sx) : sx =
   match x with
-  | L [fixed; per; n; am; nan; values] ->
-      let f = if bool_of_sx fixed then c15_gdf_fixed else c15_gdf in
-      sx_of_out (f (per_of_sx per) (nat_of_sx n) (list_of_sx nat_of_sx am) (nan_of_sx nan) (list_of_sx z_of_sx values))
-  | _ -> failwith "gdf: (fixed per n am nan values)"
+  | L [per; n; am; nan; values] ->
+      sx_of_out (c15_gdf (per_of_sx per) (nat_of_sx n) (list_of_sx nat_of_sx am) (nan_of_sx nan) (list_of_sx z_of_sx values))
+  | _ -> failwith "gdf: (per n am nan values)"
 
 let cmd_line (x : sx) : sx =
   match x with
